@@ -3,22 +3,24 @@ import itertools
 
 from .. import shapes as S
 from ..core import Case
+from .common import place, CTX
 
 IGN = ['{T}(ignore)', '{T} = false', '{T}(ignore = true)', '{T}(ignore(true))']
 NOTIGN = [None, '{T} = true', '{T}(ignore = false)']
 CFGS = {'P': ('PartialEq', 'PartialEq'), 'PE': ('PartialEq, Eq', 'PartialEq'), 'EP': ('Eq, PartialEq', 'Eq')}
 
 
-def field_attr(ch, carrier, salt):
+def field_meta(ch, carrier, salt):
+    """the field's own meta text (None = no attribute)"""
     if ch == 'c':
         s = NOTIGN[salt % len(NOTIGN)]
-        return [] if s is None else ['#[educe(%s)]' % s.format(T=carrier)]
+        return None if s is None else s.format(T=carrier)
     if ch == 'i':
-        return ['#[educe(%s)]' % IGN[salt % len(IGN)].format(T=carrier)]
+        return IGN[salt % len(IGN)].format(T=carrier)
     if ch == 'm':
-        return ['#[educe(%s(method(eq_asym)))]' % carrier]
+        return '%s(method(eq_asym))' % carrier
     if ch == 'l':
-        return ['#[educe(%s(method = "eq_par"))]' % carrier if salt % 2 else '#[educe(%s(method(eq_par)))]' % carrier]
+        return '%s(method = "eq_par")' % carrier if salt % 2 else '%s(method(eq_par))' % carrier
     raise ValueError(ch)
 
 
@@ -32,7 +34,7 @@ def field_term(ch, a, b):
     return None
 
 
-def build(shape, assign, cfg, generic=False):
+def build(shape, assign, cfg, generic=False, ctx='alone'):
     """assign[vi] = string over c/i/m/l, one char per field"""
     traits, carrier = CFGS[cfg]
     tys, fattrs, doms = [], [], []
@@ -43,13 +45,15 @@ def build(shape, assign, cfg, generic=False):
             ch = assign[vi][fi]
             salt += 1
             t.append('I' if ch == 'i' else ('G' if generic and ch == 'c' else 'V'))
-            a.append(field_attr(ch, carrier, salt + vi))
+            a.append(place(field_meta(ch, carrier, salt + vi), 'Hash(ignore)', ctx))
             d.append(['I(0)', 'I(1)'] if ch == 'i' else ['V(0)', 'V(1)', 'V(2)'])
         tys.append(t)
         fattrs.append(a)
         doms.append(d)
     gen = '<G>' if generic else ''
     tyname = 'Ty<V>' if generic else 'Ty'
+    if ctx != 'alone':
+        traits = ('Hash, ' + traits) if ctx.endswith('before') else (traits + ', Hash')
     src = S.render_type(shape, ['#[educe(%s)]' % traits], tys, fattrs, generics=gen, derives='Educe, Debug')
     vals = S.all_values(shape, doms)
     src += 'fn values() -> Vec<%s> {\n    vec![\n%s    ]\n}\n' % (tyname, ''.join('        %s,\n' % v for v in vals))
@@ -70,9 +74,9 @@ def build(shape, assign, cfg, generic=False):
     if lawful:
         src += '    eq_laws(r, &vs, &|a, b| a == b);\n'
     src += '}\n'
-    depth = sum(1 for a in assign for ch in a if ch != 'c') + (0 if cfg == 'P' else 1) + (1 if generic else 0)
-    key = 'C02|%s|%s|%s%s' % (cfg, shape.code(), ','.join(assign), '|G' if generic else '')
-    spec = {'cfg': cfg, 'shape': shape.code(), 'assign': list(assign), 'generic': generic, 'values': len(vals)}
+    depth = sum(1 for a in assign for ch in a if ch != 'c') + (0 if cfg == 'P' else 1) + (1 if generic else 0) + (0 if ctx == 'alone' else 1)
+    key = 'C02|%s|%s|%s%s' % (cfg, shape.code(), ','.join(assign), ('|G' if generic else '') + ('' if ctx == 'alone' else '|' + ctx))
+    spec = {'cfg': cfg, 'shape': shape.code(), 'assign': list(assign), 'generic': generic, 'ctx': ctx, 'values': len(vals)}
     return Case(key, src, spec, expect='accept', run=True, depth=depth)
 
 
@@ -101,35 +105,27 @@ def generate(tier):
         for assign in assignments(sh, 'cm'):
             if any('c' in a for a in assign):
                 cases.append(build(sh, assign, 'P', generic=True))
+    for sh in S.struct_shapes(2) + S.enum_shapes(2, 2 if tier != 'quick' else 1) + [S.Shape('enum', [S.Fields('t', 2), S.Fields('n', 2)])]:
+        if not sh.positions():
+            continue
+        for assign in assignments(sh, 'cim'):
+            for ctx in CTX[1:]:
+                for cfg in (('P', 'EP') if tier == 'quick' else CFGS):
+                    cases.append(build(sh, assign, cfg, ctx=ctx))
     return cases
 
 
 def check(v, tier):
-    from ..core import rt_run, guard
+    from .common import run_behavioural
     cases = generate(tier)
-    guard(len({c.key for c in cases}) == len(cases), 'duplicate keys')
-    res = rt_run(cases, run=True, name='C02')
-    v.add_states(cases)
-    both = 0
-    for r in res:
-        if r.status != 'ok':
-            v.cov['blocked'] += 1
-            v.notes.setdefault('blocked_samples', [])
-            if len(v.notes['blocked_samples']) < 5:
-                v.notes['blocked_samples'].append({'key': r.case.key, 'status': r.status,
-                                                   'diag': [d['msg'][:200] for d in r.errors()[:2]]})
-            continue
-        v.cov['traces_validated_against_impl'] += 1
-        v.cov['evaluations'] += r.evals
-        if r.outcomes >= 2:
-            v.cov['distinct_nontrivial'] += 1
-        if r.outcomes >= 4:
-            both += 1
-        if r.nfail:
-            v.violation(r.case, '%d disagreements with the model; first: %s' % (r.nfail, ' ;; '.join(r.fails[:3])))
-    for c in cases[:3] + cases[len(cases) // 2:len(cases) // 2 + 2]:
-        v.sample({'key': c.key, 'program': c.body[:1500]})
-    guard(v.cov['blocked'] * 10 <= len(cases), 'more than 10%% of the C02 programs do not compile (%d of %d): see C01' % (v.cov['blocked'], len(cases)))
-    guard(both * 2 >= len(cases), 'too few programs showed both equal and unequal pairs')
-    return v.finish('every struct/enum shape within the bound x every assignment of {compared, ignored(poisoned type), method(asymmetric), method(lawful)} per field x attribute carrier {PartialEq alone, PartialEq(..) with Eq, Eq(..) with PartialEq}; per program all ordered pairs of values over {0,1,2} (ignored fields {0,1}) against the field-wise model, != as negation, laws on all triples when every method is lawful; non-trivial = both true and false observed',
-                    {'bounds': {'tier': tier}})
+    run_behavioural(v, cases, 'C02', nontrivial_min=2)
+    return v.finish(RULE, {'bounds': BOUNDS[tier]})
+
+
+RULE = ('every struct/enum shape within the bound x every assignment of {compared, ignored (type whose == panics), '
+        'method (asymmetric), method (lawful)} per field x attribute carrier {PartialEq alone, PartialEq(..) with Eq, '
+        'Eq(..) with PartialEq} x attribute context (other trait\'s attribute before/after/same list); per program all '
+        'ordered pairs of values over {0,1,2} (ignored fields {0,1}) against the field-wise model, != as negation, '
+        'laws on all triples when every method is lawful; non-trivial = both true and false observed')
+BOUNDS = {'quick': {'struct_fields': 3, 'enum_variants': 2, 'enum_fields': 2},
+          'thorough': {'struct_fields': 4, 'enum_variants': 3, 'enum_fields': '3 (V<=2) / 2 (V=3)'}}
